@@ -524,7 +524,10 @@ impl PtraceDumper {
             mapping = self.find_mapping(stack_pointer);
         }
 
+        // The search above can run out of guard distance while still inside a
+        // mapping that cannot be a stack; that is not a stack mapping either.
         mapping
+            .filter(|mapping| Self::may_be_stack(Some(mapping)))
             .map(|mapping| {
                 let valid_stack_pointer = if mapping.contains_address(stack_pointer) {
                     stack_pointer
